@@ -1,2 +1,340 @@
-//! vprobe: deterministic probe corpus for C18 (placeholder until the C18 monitor lands).
-fn main() {}
+//! vprobe: deterministic probe corpus for C18 (results independent of backend, build configuration and
+//! container type). Built against dryoc with (a) default features on stable, (b) `nightly`, (c) `nightly` +
+//! `simd_backend`; each build prints a transcript `case-id <TAB> output` which the orchestrator diffs.
+//! In the nightly builds every operation is additionally executed with stack / Vec / heap / locked containers
+//! and compared in-process (lines starting with `CONTAINER_MISMATCH`).
+//!
+//! usage: vprobe <shard> <nshards> [thorough]
+#![cfg_attr(feature = "nightly", feature(allocator_api))]
+#![allow(dead_code)]
+
+#[path = "prng.rs"]
+mod prng;
+
+use std::io::Write;
+
+use dryoc::classic::crypto_auth::crypto_auth;
+use dryoc::classic::crypto_box::*;
+use dryoc::classic::crypto_core::*;
+use dryoc::classic::crypto_generichash::*;
+use dryoc::classic::crypto_hash::*;
+use dryoc::classic::crypto_kdf::crypto_kdf_derive_from_key;
+use dryoc::classic::crypto_kx::*;
+use dryoc::classic::crypto_onetimeauth::crypto_onetimeauth;
+use dryoc::classic::crypto_pwhash::{crypto_pwhash, PasswordHashAlgorithm};
+use dryoc::classic::crypto_secretbox::crypto_secretbox_easy;
+use dryoc::classic::crypto_shorthash::crypto_shorthash;
+use dryoc::classic::crypto_sign::*;
+use dryoc::generichash::GenericHash;
+use dryoc::kdf::Kdf;
+use dryoc::keypair::KeyPair;
+use dryoc::precalc::PrecalcSecretKey;
+use dryoc::sign::SigningKeyPair;
+use dryoc::types::*;
+use prng::Rng;
+
+fn hx(b: &[u8]) -> String {
+    let mut s = String::with_capacity(b.len() * 2);
+    for x in b {
+        s.push_str(&format!("{:02x}", x));
+    }
+    s
+}
+
+/// outputs longer than 64 bytes are folded with a simple 128-bit FNV (not a dryoc primitive on purpose)
+fn fold(b: &[u8]) -> String {
+    if b.len() <= 64 {
+        return hx(b);
+    }
+    let mut h: u128 = 0x6c62272e07bb014262b821756295c58d;
+    for x in b {
+        h ^= *x as u128;
+        h = h.wrapping_mul(0x0000000001000000000000000000013b);
+    }
+    format!("fnv128:{:032x}:len={}", h, b.len())
+}
+
+struct Out {
+    shard: u64,
+    n: u64,
+    idx: u64,
+    w: std::io::BufWriter<std::io::Stdout>,
+    emitted: u64,
+}
+
+impl Out {
+    fn mine(&mut self) -> bool {
+        self.idx += 1;
+        let mut z = self.idx.wrapping_add(0x9e3779b97f4a7c15);
+        z = (z ^ (z >> 30)).wrapping_mul(0xbf58476d1ce4e5b9);
+        z = (z ^ (z >> 27)).wrapping_mul(0x94d049bb133111eb);
+        z ^= z >> 31;
+        z % self.n == self.shard
+    }
+    fn emit(&mut self, id: &str, out: &[u8]) {
+        let _ = writeln!(self.w, "{}\t{}", id, fold(out));
+        self.emitted += 1;
+    }
+    fn emit_res(&mut self, id: &str, r: Result<Vec<u8>, String>) {
+        match r {
+            Ok(v) => self.emit(id, &v),
+            Err(e) => {
+                let _ = writeln!(self.w, "{}\tERR", id);
+                let _ = e;
+                self.emitted += 1;
+            }
+        }
+    }
+    /// in-process comparison between container types
+    fn same(&mut self, id: &str, a: &[u8], b: &[u8]) {
+        if a != b {
+            let _ = writeln!(self.w, "CONTAINER_MISMATCH\t{}\t{}\t{}", id, fold(a), fold(b));
+        } else {
+            let _ = writeln!(self.w, "CONTAINER_OK\t{}", id);
+        }
+    }
+}
+
+fn msg_of(rng_seed: u64, len: usize) -> Vec<u8> {
+    Rng::new(rng_seed, len as u64).bytes(len)
+}
+
+fn main() {
+    let args: Vec<String> = std::env::args().collect();
+    let shard: u64 = args.get(1).and_then(|s| s.parse().ok()).unwrap_or(0);
+    let n: u64 = args.get(2).and_then(|s| s.parse().ok()).unwrap_or(1);
+    let thorough = args.get(3).map(|s| s == "thorough").unwrap_or(false);
+    let mut o = Out { shard, n, idx: 0, w: std::io::BufWriter::new(std::io::stdout()), emitted: 0 };
+    let key64 = msg_of(11, 64);
+    let key32: [u8; 32] = key64[..32].try_into().unwrap();
+
+    // ------------------------------------------------ generic hash: lengths x parameter pairs
+    let maxlen = if thorough { 1100 } else { 520 };
+    for len in 0..=maxlen {
+        if !o.mine() {
+            continue;
+        }
+        let m = msg_of(1, len);
+        for (ol, kl) in [(32usize, 0usize), (64, 64), (16, 16), (33, 17)] {
+            let mut out = vec![0u8; ol];
+            let key = if kl == 0 { None } else { Some(&key64[..kl]) };
+            let r = crypto_generichash(&mut out, &m, key).map(|_| out).map_err(|e| e.to_string());
+            o.emit_res(&format!("gh/{}/{}/{}", len, ol, kl), r);
+        }
+        let mut d = [0u8; 64];
+        crypto_hash_sha512(&mut d, &m);
+        o.emit(&format!("sha512/{}", len), &d);
+        let mut a = [0u8; 32];
+        crypto_auth(&mut a, &m, &key32);
+        o.emit(&format!("auth/{}", len), &a);
+        let mut t = [0u8; 16];
+        crypto_onetimeauth(&mut t, &m, &key32);
+        o.emit(&format!("poly1305/{}", len), &t);
+        let mut s8 = [0u8; 8];
+        crypto_shorthash(&mut s8, &m, key64[..16].try_into().unwrap());
+        o.emit(&format!("siphash/{}", len), &s8);
+    }
+    for ol in 16..=64usize {
+        for kl in std::iter::once(0usize).chain(16..=64) {
+            if !o.mine() {
+                continue;
+            }
+            for len in [0usize, 1, 127, 128, 129, 256] {
+                let m = msg_of(2, len);
+                let mut out = vec![0u8; ol];
+                let key = if kl == 0 { None } else { Some(&key64[..kl]) };
+                let r = crypto_generichash(&mut out, &m, key).map(|_| out).map_err(|e| e.to_string());
+                o.emit_res(&format!("ghpair/{}/{}/{}", ol, kl, len), r);
+            }
+        }
+    }
+    // ------------------------------------------------ generic hash: every 2-way chunking (and 3-way near block boundaries)
+    let l2 = if thorough { 700 } else { 400 };
+    for len in 0..=l2 {
+        if !o.mine() {
+            continue;
+        }
+        let m = msg_of(3, len);
+        for a in 0..=len {
+            for keyed in [false, true] {
+                let mut st = crypto_generichash_init(if keyed { Some(&key32[..]) } else { None }, 32).unwrap();
+                crypto_generichash_update(&mut st, &m[..a]);
+                crypto_generichash_update(&mut st, &m[a..]);
+                let mut out = [0u8; 32];
+                crypto_generichash_final(st, &mut out).unwrap();
+                o.emit(&format!("gh2/{}/{}/{}", len, a, keyed as u8), &out);
+            }
+        }
+    }
+    for len in [127usize, 128, 129, 255, 256, 257, 384] {
+        if !o.mine() {
+            continue;
+        }
+        let m = msg_of(4, len);
+        for a in 0..=len {
+            for b in [a, (a + 1).min(len), (a + 127).min(len), (a + 128).min(len), len] {
+                let mut h = GenericHash::<32, 64>::new(Some(&key32)).unwrap();
+                h.update(&m[..a]);
+                h.update(&m[a..b]);
+                h.update(&m[b..]);
+                let out = h.finalize_to_vec().unwrap();
+                o.emit(&format!("gh3/{}/{}/{}", len, a, b), &out);
+            }
+        }
+    }
+    // ------------------------------------------------ KDF: every length x ids
+    for id in [0u64, 1, 2, 255, 0xffff_ffff, 0x1_0000_0000, 1 << 63, u64::MAX] {
+        if !o.mine() {
+            continue;
+        }
+        for len in 16..=64usize {
+            let mut sk = vec![0u8; len];
+            let r = crypto_kdf_derive_from_key(&mut sk, id, b"ctxctxct", &key32).map(|_| sk).map_err(|e| e.to_string());
+            o.emit_res(&format!("kdf/{}/{}", id, len), r);
+        }
+    }
+    // ------------------------------------------------ X25519, kx, box, sealed-box nonce, signatures
+    let nkeys = if thorough { 400 } else { 60 };
+    for i in 0..nkeys {
+        if !o.mine() {
+            continue;
+        }
+        let mut r = Rng::new(5, i as u64);
+        let (apk, ask) = crypto_box_seed_keypair(&r.bytes(32));
+        let (bpk, bsk) = crypto_box_seed_keypair(&r.bytes(32));
+        o.emit(&format!("boxseed/{}", i), &[apk, ask].concat());
+        let mut q = [0u8; 32];
+        crypto_scalarmult(&mut q, &ask, &r.arr::<32>());
+        o.emit(&format!("x25519/{}", i), &q);
+        let (mut rx, mut tx) = ([0u8; 32], [0u8; 32]);
+        let kr = crypto_kx_client_session_keys(&mut rx, &mut tx, &apk, &ask, &bpk).map(|_| [rx, tx].concat()).map_err(|e| e.to_string());
+        o.emit_res(&format!("kx/{}", i), kr);
+        let nonce: [u8; 24] = r.arr();
+        let mlen = r.range(0, 300);
+        let m = r.bytes(mlen);
+        let mut c = vec![0u8; m.len() + 16];
+        crypto_box_easy(&mut c, &m, &nonce, &bpk, &ask).unwrap();
+        o.emit(&format!("box/{}", i), &c);
+        let mut c2 = vec![0u8; m.len() + 16];
+        crypto_secretbox_easy(&mut c2, &m, &nonce, &key32).unwrap();
+        o.emit(&format!("secretbox/{}", i), &c2);
+        // a sealed box built by hand from a fixed ephemeral key: seal_open must derive the same BLAKE2b nonce
+        let (epk, esk) = crypto_box_seed_keypair(&r.bytes(32));
+        let mut sn = [0u8; 24];
+        crypto_generichash(&mut sn, &[epk, bpk].concat(), None).unwrap();
+        let mut inner = vec![0u8; m.len() + 16];
+        crypto_box_easy(&mut inner, &m, &sn, &bpk, &esk).unwrap();
+        let mut sealed = epk.to_vec();
+        sealed.extend_from_slice(&inner);
+        let mut opened = vec![0u8; m.len()];
+        let sr = crypto_box_seal_open(&mut opened, &sealed, &bpk, &bsk).map(|_| opened).map_err(|e| e.to_string());
+        o.emit_res(&format!("seal_open/{}", i), sr.map(|v| if v == m { b"opened-ok".to_vec() } else { b"opened-wrong".to_vec() }));
+        let (spk, ssk) = crypto_sign_seed_keypair(&r.arr());
+        let mut sig = [0u8; 64];
+        crypto_sign_detached(&mut sig, &m, &ssk).unwrap();
+        o.emit(&format!("sign/{}", i), &[&spk[..], &sig[..]].concat());
+        let mut st = crypto_sign_init();
+        crypto_sign_update(&mut st, &m[..mlen / 2]);
+        crypto_sign_update(&mut st, &m[mlen / 2..]);
+        let mut sig2 = [0u8; 64];
+        crypto_sign_final_create(st, &mut sig2, &ssk).unwrap();
+        o.emit(&format!("signph/{}", i), &sig2);
+        let mut hs = [0u8; 32];
+        crypto_core_hsalsa20(&mut hs, nonce[..16].try_into().unwrap(), &key32, None);
+        o.emit(&format!("hsalsa20/{}", i), &hs);
+
+        #[cfg(feature = "nightly")]
+        containers(&mut o, i, &m, &nonce, &key32, (&apk, &ask), (&bpk, &bsk), &ssk);
+    }
+    // ------------------------------------------------ Argon2 grid (reduced) incl. password lengths that end on BLAKE2b block boundaries
+    for (ai, alg) in [PasswordHashAlgorithm::Argon2i13, PasswordHashAlgorithm::Argon2id13].into_iter().enumerate() {
+        for t in [1u64, 2, 3] {
+            for mk in [8usize, 9, 16, 33, 64, 600] {
+                for (outlen, pwlen) in [(32usize, 8usize), (16, 0), (64, 72), (65, 200), (128, 56), (200, 127)] {
+                    if !o.mine() {
+                        continue;
+                    }
+                    if mk == 600 && (t > 1 || outlen != 32) && !thorough {
+                        continue;
+                    }
+                    let pw = msg_of(6, pwlen);
+                    let mut out = vec![0u8; outlen];
+                    let r = crypto_pwhash(&mut out, &pw, b"0123456789abcdef", t, mk * 1024, alg.clone()).map(|_| out).map_err(|e| e.to_string());
+                    o.emit_res(&format!("argon2/{}/{}/{}/{}/{}", ai, t, mk, outlen, pwlen), r);
+                }
+            }
+        }
+    }
+    let _ = writeln!(o.w, "SUMMARY\t{}\t{}", o.emitted, o.idx);
+    let _ = o.w.flush();
+}
+
+#[cfg(feature = "nightly")]
+fn containers(o: &mut Out, i: usize, m: &[u8], nonce: &[u8; 24], key32: &[u8; 32], a: (&[u8; 32], &[u8; 32]), b: (&[u8; 32], &[u8; 32]), ssk: &[u8; 64]) {
+    use dryoc::dryocsecretbox::DryocSecretBox;
+    use dryoc::protected::*;
+    let hb = |x: &[u8]| {
+        let mut h = HeapBytes::default();
+        h.resize(x.len(), 0);
+        h.as_mut_slice().copy_from_slice(x);
+        h
+    };
+    // generic hash with keys / outputs in every container
+    let base: StackByteArray<32> = GenericHash::<32, 32>::hash(m, Some(&StackByteArray::<32>::from(*key32))).unwrap();
+    let v: Vec<u8> = GenericHash::<32, 32>::hash(&m.to_vec(), Some(&key32.to_vec())).unwrap();
+    o.same(&format!("gh:stack-vs-vec/{}", i), base.as_slice(), &v);
+    let h: HeapByteArray<32> = GenericHash::<32, 32>::hash(&hb(m), Some(&HeapByteArray::<32>::from(key32))).unwrap();
+    o.same(&format!("gh:stack-vs-heap/{}", i), base.as_slice(), h.as_slice());
+    let lk = HeapByteArray::<32>::from_slice_into_locked(key32).unwrap();
+    let l: Locked<HeapByteArray<32>> = GenericHash::<32, 32>::hash(&HeapBytes::from_slice_into_locked(m).unwrap(), Some(&lk)).unwrap();
+    o.same(&format!("gh:stack-vs-locked/{}", i), base.as_slice(), l.as_slice());
+    // kdf
+    let ks: Kdf<StackByteArray<32>, StackByteArray<8>> = Kdf::from_parts(StackByteArray::from(*key32), StackByteArray::from(*b"ctxctxct"));
+    let kl: dryoc::kdf::protected::LockedKdf = Kdf::from_parts(HeapByteArray::<32>::from_slice_into_locked(key32).unwrap(), HeapByteArray::<8>::from_slice_into_locked(b"ctxctxct").unwrap());
+    let s1: Vec<u8> = ks.derive_subkey_to_vec(i as u64).unwrap();
+    let s2: Locked<HeapByteArray<32>> = kl.derive_subkey(i as u64).unwrap();
+    o.same(&format!("kdf:stack-vs-locked/{}", i), &s1, s2.as_slice());
+    // key pair from secret key, precomputed keys in every container
+    let kps: KeyPair<StackByteArray<32>, StackByteArray<32>> = KeyPair::from_secret_key(StackByteArray::from(*a.1));
+    let kph: KeyPair<HeapByteArray<32>, HeapByteArray<32>> = KeyPair::from_secret_key(HeapByteArray::from(a.1));
+    o.same(&format!("keypair:stack-vs-heap/{}", i), kps.public_key.as_slice(), kph.public_key.as_slice());
+    o.same(&format!("keypair:stack-vs-classic/{}", i), kps.public_key.as_slice(), a.0);
+    let pre = PrecalcSecretKey::precalculate(b.0, a.1);
+    let prel = PrecalcSecretKey::precalculate_locked(b.0, a.1).unwrap();
+    let prero = PrecalcSecretKey::precalculate_readonly_locked(b.0, a.1).unwrap();
+    o.same(&format!("precalc:stack-vs-locked/{}", i), pre.as_slice(), prel.as_slice());
+    o.same(&format!("precalc:stack-vs-lockedro/{}", i), pre.as_slice(), prero.as_slice());
+    o.same(&format!("precalc:stack-vs-beforenm/{}", i), pre.as_slice(), &crypto_box_beforenm(b.0, a.1));
+    let kpl: KeyPair<Locked<HeapByteArray<32>>, Locked<HeapByteArray<32>>> = KeyPair { public_key: HeapByteArray::<32>::from_slice_into_locked(a.0).unwrap(), secret_key: HeapByteArray::<32>::from_slice_into_locked(a.1).unwrap() };
+    let prel2 = kpl.precalculate_locked(b.0).unwrap();
+    o.same(&format!("precalc:stack-vs-keypair-locked/{}", i), pre.as_slice(), prel2.as_slice());
+    // secret box
+    let b1: DryocSecretBox<StackByteArray<16>, Vec<u8>> = DryocSecretBox::encrypt(m, nonce, key32);
+    let b2: DryocSecretBox<HeapByteArray<16>, HeapBytes> = DryocSecretBox::encrypt(&hb(m), &HeapByteArray::<24>::from(nonce), &HeapByteArray::<32>::from(key32));
+    let b3: dryoc::dryocsecretbox::protected::LockedBox = DryocSecretBox::encrypt(&hb(m), nonce, &lk);
+    let w1: Vec<u8> = b1.to_bytes();
+    let w2: Vec<u8> = b2.to_bytes();
+    let w3: Vec<u8> = b3.to_bytes();
+    o.same(&format!("secretbox:stack-vs-heap/{}", i), &w1, &w2);
+    o.same(&format!("secretbox:stack-vs-locked/{}", i), &w1, &w3);
+    // box
+    let x1 = dryoc::dryocbox::VecBox::encrypt_to_vecbox(m, &StackByteArray::from(*nonce), &StackByteArray::from(*b.0), &StackByteArray::from(*a.1)).unwrap().to_vec();
+    let x2: dryoc::dryocbox::protected::LockedBox = dryoc::dryocbox::DryocBox::encrypt(&hb(m), &HeapByteArray::<24>::from(nonce), &HeapByteArray::<32>::from(b.0), &HeapByteArray::<32>::from_slice_into_readonly_locked(a.1).unwrap()).unwrap();
+    o.same(&format!("box:stack-vs-locked/{}", i), &x1, &x2.to_bytes::<Vec<u8>>());
+    let x3: dryoc::dryocbox::DryocBox<HeapByteArray<32>, HeapByteArray<16>, HeapBytes> = dryoc::dryocbox::DryocBox::precalc_encrypt(m, nonce, &prero).unwrap();
+    o.same(&format!("box:stack-vs-precalc-lockedro/{}", i), &x1, &x3.to_bytes::<Vec<u8>>());
+    // signatures
+    let sk_s: SigningKeyPair<StackByteArray<32>, StackByteArray<64>> = SigningKeyPair::from_secret_key(StackByteArray::from(*ssk));
+    let sk_l: dryoc::sign::protected::LockedSigningKeyPair = SigningKeyPair { public_key: HeapByteArray::<32>::from_slice_into_locked(&ssk[32..]).unwrap(), secret_key: HeapByteArray::<64>::from_slice_into_locked(ssk).unwrap() };
+    let g1 = sk_s.sign_with_defaults(m.to_vec()).unwrap().to_vec();
+    let g2: dryoc::sign::protected::LockedSignedMessage = sk_l.sign(HeapBytes::from_slice_into_locked(m).unwrap()).unwrap();
+    o.same(&format!("sign:stack-vs-locked/{}", i), &g1, &g2.to_bytes::<Vec<u8>>());
+    // sessions
+    let s_s: dryoc::kx::Session<StackByteArray<32>> = dryoc::kx::Session::new_client(&kps, &StackByteArray::from(*b.0)).unwrap();
+    let s_l: dryoc::kx::protected::LockedSession = dryoc::kx::Session::new_client(&kpl, &HeapByteArray::<32>::from_slice_into_locked(b.0).unwrap()).unwrap();
+    o.same(&format!("kx:stack-vs-locked/{}", i), &[s_s.rx_as_slice(), s_s.tx_as_slice()].concat(), &[s_l.rx_as_slice(), s_l.tx_as_slice()].concat());
+    // sha512 object
+    let d1: StackByteArray<64> = dryoc::sha512::Sha512::compute(m);
+    let d2: Vec<u8> = dryoc::sha512::Sha512::compute_to_vec(&hb(m));
+    o.same(&format!("sha512:stack-vs-heap-input/{}", i), d1.as_slice(), &d2);
+}
